@@ -11,7 +11,7 @@ PROP = {
             "multimodal variants, all three minimize overloads, deltas 1e-3..1e3 of either sign, ftol 1e-12..1e-3; convergence judged where the initial simplex edge is >= 1/3 of "
             "the distance to the minimiser; the small-simplex regime is explored against the recorded finding. Non-trivial = >= 10 iterations (tick hook) and, for n >= 2... "
             "at least one expansion, one contraction and one shrink were observed (tick sites); distinct = hash of start, deltas/limits and tolerance",
-    "floors": {"quick": {"cases": 100000, "distinct_nontrivial": 20000, "ticks": {"Brent.iteration": 500000, "NelderMead.iteration": 500000, "NelderMead.shrink": 100}},
+    "floors": {"quick": {"cases": 310000, "distinct_nontrivial": 200000, "ticks": {"Brent.iteration": 500000, "NelderMead.iteration": 500000, "NelderMead.shrink": 100}},
                "thorough": {"cases": 10000000, "distinct_nontrivial": 300000, "ticks": {"Brent.iteration": 50000000, "NelderMead.iteration": 50000000}}},
     "technique": "runtime monitoring: objective-evaluation wrapper, descent and state-consistency assertions on the returned object, closed-form minimisers as reference, "
                  "tick-hook step budgets (bounded progress) and branch counters; worker death = violation; ASan/UBSan build",
